@@ -143,6 +143,8 @@ def run(ck, tier):
     F = factsmod.Facts("ws")
     from . import influence as _infl
     _infl.run(ck, F, 'C14')
+    from . import mustpass as _mp
+    _mp.run(ck, F, 'C14')
     from . import c14x
     c14x.run(ck, F)
     ck.rule("C14.reset-completeness", "the emitting method of each push decoder re-initialises every accumulation field listed for it, and those fields "
